@@ -26,6 +26,7 @@ from liquid.token import TOKEN_LIMIT
 from liquid.token import TOKEN_OFFSET
 from liquid.token import TOKEN_REVERSED
 
+from .path import quote_identifier
 from .primitive import StringLiteral
 from .primitive import parse_identifier
 from .primitive import parse_primitive
@@ -73,7 +74,7 @@ class LoopExpression(Expression):
         )
 
     def __str__(self) -> str:
-        buf = [f"{self.identifier} in", str(self.iterable)]
+        buf = [f"{quote_identifier(self.identifier)} in", str(self.iterable)]
 
         if self.limit is not None:
             buf.append(f"limit:{self.limit}")
